@@ -77,6 +77,12 @@ CHECKS.update({
    text="The persisted==in-memory clause is evaluated after every event-intake and sync step of generated histories (with conflict gadgets, so splits, merges and discards occur); the codec clause serialises generated entries, stores the row and loads it through the real SyncState loader, including rows in the formats older releases wrote.",
    note=E_NOTE),
 })
+CHECKS.update({
+ "C11": dict(engine="state-level", category="exploration", design_ref="2/C11",
+   technique="stateful property-based testing of SyncState: generated event/split/merge/ignore/assignment/commit sequences with an index-integrity invariant evaluated after every operation; the same invariant after every step of generated engine histories",
+   text="The two lookup structures and the pending set are recomputed from the entries after every operation and compared slot by slot (every id slot, every (path,id) slot, no empty bucket, pending == change flag with an id, nothing forgotten). Sequences deliberately reuse ids and path slots and include splits and merges.",
+   note="Trusted: the integrity predicate (transcribed from the statement). Operation preconditions mirror the code's own asserts and call sites. KF-16 (unbounded recursion) and KF-35 (abandoned entry stays pending) are fenced off and replayed."),
+})
 NOT_YET = {}
 
 def main():
